@@ -943,9 +943,11 @@ func workerMain(arg string) {
 // ---------------------------------------------------------------------------------------------
 // Free-running pass (for the -race binary): same bodies, real goroutines, real sync.
 
-func freeRun(iters int) {
+func freeRun(iters int, budget time.Duration) {
 	ws := worlds{}
 	t0 := time.Now()
+	epochs := 0
+
 	for si := range scenarios {
 		sc := &scenarios[si]
 		if iters < 100 && sc.prune != types.PruneNothingStrategy {
@@ -958,6 +960,10 @@ func freeRun(iters int) {
 			os.Exit(3)
 		}
 		for it := 0; it < iters; it++ {
+			if budget > 0 && time.Since(t0) > budget {
+				break
+			}
+			epochs++
 			p := w.prepare()
 			x := &execution{p: p, obs: make([][]qobs, len(sc.qs)), units0: w.sdb.DB.NumUnits()}
 			var wg sync.WaitGroup
@@ -996,6 +1002,7 @@ func freeRun(iters int) {
 			}
 		}
 	}
+	fmt.Printf("FREERUN-EPOCHS %d\n", epochs)
 	fmt.Println("FREERUN-OK")
 }
 
@@ -1022,7 +1029,7 @@ func main() {
 		defer pprof.StopCPUProfile()
 	}
 	if *free > 0 {
-		freeRun(*free)
+		freeRun(*free, r.Budget)
 		return
 	}
 	if *worker != "" {
@@ -1046,7 +1053,7 @@ func main() {
 	var raceErr error
 	if *raceBin != "" && *only < 0 {
 		go func() {
-			cmd := exec.Command(*raceBin, "-id", r.ID, "-freerun", map[bool]string{true: "25", false: "300"}[r.Quick()])
+			cmd := exec.Command(*raceBin, "-id", r.ID, "-freerun", map[bool]string{true: "4", false: "150"}[r.Quick()], "-budget", fmt.Sprintf("%ds", int(r.Budget.Seconds()*0.8)))
 			cmd.Env = append(os.Environ(), "GORACE=halt_on_error=0")
 			out, err := cmd.CombinedOutput()
 			raceOut, raceErr = string(out), err
@@ -1160,7 +1167,11 @@ func main() {
 			}
 			sort.Strings(cl)
 			if !strings.Contains(s, "DATA RACE") {
-				raceNote = fmt.Sprintf("free-running -race pass of the same bodies (%s): no data race reported", map[bool]string{true: "25 epochs x the 6 scenarios without pruning", false: "300 epochs x all 7 scenarios"}[r.Quick()])
+				ep := "?"
+				if i := strings.LastIndex(s, "FREERUN-EPOCHS "); i >= 0 {
+					ep = strings.Fields(s[i+len("FREERUN-EPOCHS "):])[0]
+				}
+				raceNote = fmt.Sprintf("free-running -race pass of the same bodies (%s; %s epochs run): no data race reported", map[bool]string{true: "4 epochs x the 6 scenarios without pruning", false: "up to 150 epochs x all 7 scenarios, budget-capped"}[r.Quick()], ep)
 			}
 			if n > 0 {
 				// timing-dependent: informational only (the controlled enumeration decides)
